@@ -25,6 +25,8 @@ pub mod external_signer;
 pub mod quoting_metrics;
 pub mod testnet;
 pub mod utils;
+#[cfg(maidsafe_safe_network_verif)]
+pub mod verif;
 pub mod wallet;
 
 static PUBLIC_ARBITRUM_ONE_HTTP_RPC_URL: LazyLock<reqwest::Url> = LazyLock::new(|| {
